@@ -24,7 +24,7 @@ ASSUMPTIONS = [
 ]
 BOUNDS = {"quick": {"variables": "<=4", "terms": "<=2 a + <=3 g", "objective coefficients": [-3, -2, -1, 1, 2, 3]}, "thorough": {"variables": "<=5", "terms": "<=3 a + <=4 g", "objective coefficients": [-3, -2, -1, 1, 2, 3]}}
 OPTS = {"quick": {"tier_budget_s": 200, "max_paths": 3000, "job_budget_s": 60, "witness_rate": 0.6}, "thorough": {"tier_budget_s": 1800, "max_paths": 20000, "job_budget_s": 300}}
-REACH = {"quick": ["value", "None", "VE", "bounds"]}
+REACH = {"quick": ["value", "None", "VE", "bounds", "unconstrained-contract"]}
 REL = Fraction(1, 10**6)
 
 
@@ -50,6 +50,10 @@ def jobs(tier, seed):
         ins, outs = ifaces[i % len(ifaces)]
         c = CS.rand_contract(rng, ins, outs, alphabet, na=(0, 1, 2), ng=(1, 2, 3))
         style = rng.choice(["bounded", "random", "random"])
+        if i % 25 == 7:
+            # a contract that constrains nothing: every behaviour is allowed, every objective is unbounded
+            c = {"in": ins, "out": outs, "a": [], "g": []}
+            style = "unconstrained"
         if style == "bounded":
             # box every variable so that finite optima are common
             for v in ins:
@@ -98,6 +102,8 @@ def check_value(ctx, label, r, rows, names, obj, maximize):
 
 def run(ctx, job):
     c = B.mk_contract(ctx, job["c"], "p")
+    if not job["c"]["a"] and not job["c"]["g"]:
+        ctx.tag("unconstrained-contract")
     rows = list(O.rows_of(c.a)) + list(O.rows_of(c.g))
     names = O.names_of(rows)
     if job["kind"] == "bounds":
